@@ -195,6 +195,15 @@ func (o *oracles) checkC03(rep reporter) {
 		}
 		// eligibility
 		allowed, group := o.expectedExclusive(y)
+		if y.cfgAtAlloc != nil && y.cfgAtAlloc != w.cfg {
+			// reconfigured since it was allocated: the grant may have been
+			// reinstated verbatim (old rules) or re-allocated (new rules)
+			saved := y.cfgAtAlloc
+			y.cfgAtAlloc = w.cfg
+			a2, _ := o.expectedExclusive(y)
+			y.cfgAtAlloc = saved
+			allowed = append(allowed, a2...)
+		}
 		excl := parseSet(g.Exclusive)
 		res.Check("eligibility")
 		okc := false
